@@ -41,7 +41,7 @@ CLAIMED["C17"] = ("predicated path enumeration (E4) with ordering atoms for the 
          "go/ssa model; proto.Equal/proto.Clone semantics assumed; loops unrolled to 2 iterations",
          "DESIGN.md §3 C17")
 CLAIMED["C10"] = ("lockset / guarded-by analysis with call-site discharge of helper entry locksets, re-entrancy and release checks (E3); CFG dominance for the re-check (E2); call-graph reachability for visitor re-entry (E5)",
-         "Static, all-paths for ctree: guarded-by of leafBranch with same-node lock identity, lock coupling at every descent, re-check before child insertion inside the write epoch, no upgrade/re-entrant acquisition (incl. through callees), all locks released on all exits, module visitors never re-enter the tree, no upward pointer in Tree. Necessary conditions of race/deadlock freedom for every schedule. The delete family's reliance on the root lock only is reported as KNOWN-FINDING F6 (genuine race with leaf-handle updates), so the check does not claim race freedom for deletes; linearizability and query stability are not decided.",
+         "Static, all-paths for ctree: guarded-by of leafBranch with same-node lock identity, lock coupling at every descent, re-check before child insertion inside the write epoch, no upgrade/re-entrant acquisition (incl. through callees), all locks released on all exits, module visitors never re-enter the tree, no upward pointer in Tree. Necessary conditions of race/deadlock freedom for every schedule. The guarded-by rule found the delete family's reliance on the root lock only (a genuine race with leaf-handle updates, reproduced with the race detector and repaired by a fix commit) and now guards it; linearizability and query stability are not decided.",
          "go/ssa model; sync.RWMutex is not re-entrant (Go spec); lock identity by SSA provenance (same node = same resolved value); loops unrolled",
          "DESIGN.md §3 C10")
 
